@@ -60,6 +60,11 @@ def run_sync(ctx, corr, tr, ix):
     for m in tr.rec.match_calls:
         ctx.evaluations += 1
         o = m["pre"]
+        if m.get("had_inner"):
+            # the strategy's TRADE handler sent an order from inside this call: its post-state carries the inner calls' effects
+            # (the inner calls themselves are compared, from their own pre-states)
+            ctx.stats["match_skipped_reentrant"] += 1
+            continue
         if o["book"] not in ix.ids or o["effect"] not in ("OPEN", "CLOSE", "CLOSE_TODAY") or o["frozen_price"] != o["frozen_price"]:
             ctx.stats["match_skipped"] += 1
             continue
